@@ -17,6 +17,10 @@ RULE = ("cases = a module state (fresh chain / module added to a running chain /
         "with toggles (1 in 8 by a non-sudoer), parameter edits and other identifiers' epoch ends; 1 case in 4 is 'wild': "
         "inconsistent counters (1 case in 7 of all: counters ahead of the epoch number), never-written sequences, polynomial not positive, stray module balance, gaps in the epoch "
         "numbers, edits of EpochsPerPeriod / MaxPeriod, invalid edits; "
+        "THE SUDO ROOT (strategic-reserve recipient) is part of every case: 5 in 11 the genesis root throughout, 4 in 11 operable "
+        "roots (ordinary accounts a0..a2, the x/gov module account — weight 5 of 9) at the start and handed over by MsgChangeRoot "
+        "in mid-history (1 op in 18; 1 in 6 of them by a stranger), 2 in 11 any account incl. every other module account of the "
+        "application (blocked recipients); the bank's blocked-recipient table is probed from the real application on every run; "
         "non-trivial = inside the property's precondition with at least one period roll-over, at least 3 enabled and 1 disabled "
         "day epoch; distinct = distinct input")
 ASSUMPTIONS = [
@@ -26,7 +30,12 @@ ASSUMPTIONS = [
     "evaluated on EVERY trace; every trace is compared with the model",
     "the driver probes once per run whether a positive provision below one unibi panics (it did before fix: 2259f46); the "
     "model follows the probe, the schedule predicate demands 'no panic', so such a tree is reported as a violation",
-    "the sudo root exists and is not a blocked address; no LegacyDec overflow (315 bits)",
+    "the sudo root exists; schedule / distribution / roll-over predicates are evaluated at day-epoch ends at which the sudo root "
+    "is an operable account (ordinary account or the x/gov module account) WITHOUT looking at the probed blocked table — a tree "
+    "whose bank refuses such a root is a violation; for any other module account as root (MsgChangeRoot accepts it, nobody can "
+    "sign as root afterwards) only the correspondence with the model's failing-transfer branch is checked; the 'strategic' "
+    "observable is the change of the root's balance net of the change published under another heading when the root is the fee "
+    "collector / distribution / inflation module account itself; no LegacyDec overflow (315 bits)",
 ]
 TRUSTED = ["coq/Lib/Dec.v as a description of cosmossdk.io/math LegacyDec (exercised by every mint of every case)"]
 
@@ -66,6 +75,26 @@ def _params(p):
                                                         z(p["epp"]), z(p["ppy"]), z(p["max"])))
 
 
+def _root(r):
+    """'a<k>' (ordinary account k; '' = a0) or 'm:<module account name>'"""
+    r = r or "a0"
+    if r.startswith("m:"):
+        name = r[2:]
+        if not name or any(not (ch.isalnum() or ch in "_-") for ch in name):
+            raise ValueError("bad module account name %r" % name)
+        return '(RMod "%s"%%string)' % name
+    if r.startswith("a") and r[1:].isdigit():
+        return "(RAcct %d)" % int(r[1:])
+    raise ValueError("bad root id %r" % r)
+
+
+def _strs(xs):
+    for x in xs:
+        if any(not (ch.isalnum() or ch in "_-") for ch in x):
+            raise ValueError("bad module account name %r" % x)
+    return "[" + "; ".join('"%s"%%string' % x for x in xs) + "]"
+
+
 def _opt(x, f=z):
     return "None" if x is None else "(Some %s)" % f(x)
 
@@ -82,6 +111,8 @@ def _op(op):
             _opt(op.get("factors"), zl), "None" if d is None else "(Some (%s, %s, %s))" % (z(d[0]), z(d[1]), z(d[2])),
             _opt(op.get("epp")), _opt(op.get("ppy")), _opt(op.get("max")))
         return "Edit %s %s" % (b(op.get("auth")), ed)
+    if k == "chroot":
+        return "ChangeRoot %s %s" % (b(op.get("auth")), _root(op.get("root")))
     return "Fund %s" % z(op.get("amt", 0))
 
 
@@ -99,18 +130,22 @@ def to_coq_case(rec):
 def _to_coq_case(rec):
     i, o = rec["input"], rec["obs"]
     unset = i.get("period") is None or i.get("skipped") is None
-    init = "{| s_params := %s; s_period := %s; s_skipped := %s; s_module := %s |}" % (
+    init = "{| s_params := %s; s_period := %s; s_skipped := %s; s_module := %s; s_root := %s |}" % (
         _params(o["params"]), "None" if unset else "(Some %s)" % z(o["period"]),
-        "None" if unset else "(Some %s)" % z(o["skipped"]), z(o["module"]))
+        "None" if unset else "(Some %s)" % z(o["skipped"]), z(o["module"]), _root(o.get("root")))
     tr = "; ".join("(%s, %s)" % (_op(op), _out(ob)) for op, ob in zip(i["ops"], o["ops"]))
-    return "{| c_zp := %s; c_init := %s; c_tr := [%s] |}" % (b(o.get("zero_mint_panics")), init, tr)
+    return "{| c_zp := %s; c_blocked := %s; c_init := %s; c_tr := [%s] |}" % (
+        b(o.get("zero_mint_panics")), _strs(o.get("blocked") or []), init, tr)
 
 
 def _facts(rec):
     i, o = rec["input"], rec["obs"]
     enabled = i["params"]["enabled"]
     f = {"enabled_days": 0, "disabled_days": 0, "rollovers": 0, "mints": 0, "zero_mints_enabled": 0, "toggles": 0,
-         "edits_ok": 0, "rejected": 0, "other_ids": 0, "funds": 0, "past_end": 0, "PANIC": 0}
+         "edits_ok": 0, "rejected": 0, "other_ids": 0, "funds": 0, "past_end": 0, "PANIC": 0, "root_changes": 0,
+         "mints_gov_root": 0, "mints_blocked_root": 0}
+    root = o.get("root") or "a0"
+    blocked = set(o.get("blocked") or [])
     period = o["period"]
     mx = i["params"]["max"]
     for op, ob in zip(i["ops"], o["ops"]):
@@ -122,6 +157,10 @@ def _facts(rec):
                 f["enabled_days"] += 1
                 if ob["minted"] > 0:
                     f["mints"] += 1
+                    if root == "m:gov":
+                        f["mints_gov_root"] += 1
+                    elif root.startswith("m:") and root[2:] in blocked:
+                        f["mints_blocked_root"] += 1
                 else:
                     f["zero_mints_enabled"] += 1
                 if period >= mx:
@@ -147,13 +186,26 @@ def _facts(rec):
                 f["rejected"] += 1
         elif k == "fund":
             f["funds"] += 1
+        elif k == "chroot":
+            if ob["ok"]:
+                root = op.get("root") or "a0"
+                f["root_changes"] += 1
+            else:
+                f["rejected"] += 1
         period = ob["period"]
     return f
+
+
+def _operable(r):
+    r = r or "a0"
+    return not r.startswith("m:") or r == "m:gov"
 
 
 def _consistent_start(rec):
     """python mirror of the *shape* of Check.pre, only for the histogram / non-trivial share"""
     i, o = rec["input"], rec["obs"]
+    if not _operable(o.get("root")) or any(op["op"] == "chroot" and op.get("auth") and not _operable(op.get("root")) for op in i["ops"]):
+        return False
     if i.get("period") is None or i.get("skipped") is None or o["module"] != 0:
         return False
     p = o["params"]
@@ -192,9 +244,12 @@ def classify(rec):
           "consistent-start" if _consistent_start(rec) else "outside-precondition"]
     if i.get("period") is None:
         ks.append("sequences-never-written")
+    ks.append("root-at-start:" + ("ordinary" if not (o.get("root") or "a0").startswith("m:") else
+                                  "gov" if o.get("root") == "m:gov" else "other-module-account"))
     for k, v in f.items():
         if v:
-            ks.append(k if k in ("past_end", "rollovers", "funds", "rejected", "other_ids", "zero_mints_enabled") or k == "PANIC" else
+            ks.append(k if k in ("past_end", "rollovers", "funds", "rejected", "other_ids", "zero_mints_enabled", "root_changes",
+                                 "mints_gov_root", "mints_blocked_root") or k == "PANIC" else
                       "%s=%s" % (k, "1-2" if v < 3 else "3-9" if v < 10 else "10+"))
     return ks
 
@@ -205,8 +260,10 @@ def describe(rec):
 
 def signature(rec):
     i = rec["input"]
+    roots = {(rec["obs"].get("root") or "a0")} | {op.get("root") or "a0" for op in i["ops"] if op["op"] == "chroot" and op.get("auth")}
     return {"kind": "inflation-schedule", "mode": i["mode"], "consistent_start": _consistent_start(rec),
-            "ops": sorted({op["op"] for op in i["ops"]})}
+            "ops": sorted({op["op"] for op in i["ops"]}),
+            "roots": sorted({"ordinary" if not r.startswith("m:") else "gov" if r == "m:gov" else "other-module-account" for r in roots})}
 
 
 def input_size(inp):
@@ -245,7 +302,14 @@ MANIFEST = {
                  "collections.Sequence) equal, op by op, those of the closed-form schedule: the (c+1)-th enabled day epoch mints "
                  "floor(polynomial(floor(c/EPP))*10^6/EPP), nothing from MaxPeriod on, disabled epochs mint nothing and do not "
                  "advance c, staking/community get the floors of their proportions, the sudo root the remainder, the module "
-                 "account ends empty, CurrentPeriod = min(c/EPP, MaxPeriod). Companion theorems: C13_all_distributed for ANY "
+                 "account ends empty, CurrentPeriod = min(c/EPP, MaxPeriod). The sudo root is part of state and history (any operable "
+                 "account — ordinary or the x/gov module account — handed over by MsgChangeRoot in mid-history) and the theorem holds for "
+                 "every bank blocked-recipient table B with wiring_ok B (every operable root can receive); for the table of the tree "
+                 "under test — re-extracted on every run by constructing the application and asking its bank keeper about every module "
+                 "account — that is obligation C13_operable_roots_can_receive; C13_blocked_root_partial_effects states the exact "
+                 "non-atomic effects of the failing transfer (mint + staking + community done, strategic share left in the module "
+                 "account, no roll-over) and C13_governance_root_blocked_refuted refutes the property for every wiring that blocks "
+                 "x/gov. Companion theorems: C13_all_distributed for ANY "
                  "state, disabled epochs, genesis / fresh-start consistency, catch-up and waiting lemmas for inconsistent "
                  "counters together with two _refuted theorems showing the closed form is false there, and "
                  "C13_sub_unit_provision_panics_before_fix (defect found by this check, repaired by fix: 2259f46: a provision in "
@@ -258,10 +322,14 @@ MANIFEST = {
     },
     "level_note": ("Hypotheses: Consistent start (necessary: two _refuted theorems; established by genesis and by the first "
                    "disabled epoch of a never-started module), EPP/MaxPeriod fixed per history, provision positive at the "
-                   "scheduled period, valid proportions, empty module account, numbers < 2^62, no LegacyDec overflow, sudo root present. The polynomial "
+                   "scheduled period, valid proportions, empty module account, numbers < 2^62, no LegacyDec overflow, sudo root an operable "
+                   "account (ordinary or x/gov) — with any other module account as root (accepted by MsgChangeRoot, all blocked on "
+                   "this tree) the property is false: boundary reported, model branch proved and compared. The polynomial "
                    "evaluation (Lib/Dec.v) is shared by model and schedule: its agreement with Go is correspondence evidence, "
                    "not a theorem. Trusted: Coq kernel + vm_compute, Lib/Dec.v, the driver's balance snapshots, "
                    "trace->Coq rendering, harness/gen/c13 (prints constants of the linked packages)."),
     "technique": "Coq proof (refinement of the code's epoch/skipped/period bookkeeping to the closed-form schedule, by "
-                 "induction over histories) + differential correspondence on keeper traces + generated default constants",
+                 "induction over histories, sudo root and bank blocked-recipient table as parameters) + differential "
+                 "correspondence on keeper traces of the real application wiring + generated default constants, roll-over "
+                 "expression and bank blocked-recipient table",
 }
